@@ -499,6 +499,14 @@ def check_ascent(case, ctx):
     ctx.nontrivial(strict >= 5 and D >= 3)
     if strict >= 5:
         ctx.label("five_strict_increases")
+    if hidden:
+        # the known finding: reported through the engine's known-findings mechanism, so that
+        # it is printed as KNOWN-FINDING while listed in known_findings.txt and becomes a
+        # VIOLATION again if the listing is removed
+        raise Violation(
+            "log-likelihood decreases after a precision-loss guard event of the realisation "
+            "(psiOmega/psiBarOmega went negative and were zeroed/flipped/skipped): %r; events %r"
+            % (hidden[:3], ev.summary() if ev else None), key="psi-cancellation")
 
 
 def check_definition(case, ctx):
@@ -614,7 +622,8 @@ CLAUSES = [
     Clause("mt_ascent", lambda tier: mt_cases(tier, normalizeU=False, ascent=True), check_ascent,
            quick=300, thorough=1200, shards_quick=3,
            rule=">= 5 strict increases of the log-likelihood among the demanded comparisons and "
-                "maximum hyperedge size >= 3"),
+                "maximum hyperedge size >= 3",
+           known={"psi-cancellation": lambda case, v: v.key == "psi-cancellation"}),
     Clause("mt_definition", lambda tier: mt_cases(tier, min_value_par=0.0), check_definition,
            quick=300, thorough=1200, shards_quick=3,
            rule="maximum hyperedge size >= 3, max_iter >= 5, definition finite"),
